@@ -43,6 +43,8 @@ package airgapped
 //@   requires[C12.log.after] $handled
 //@   modifies *
 //@   modifies $logged
+// the round's log only grows at its end: what is written back is the log as read, followed by this operation
+//@   assert@call Marshal[C12.log.append] len(loc(operationsLog)) == len(loc0(operationsLog)) + 1 && (forall j int :: 0 <= j && j < len(loc0(operationsLog)) ==> loc(operationsLog)[j] == loc0(operationsLog)[j]) && loc(roundOperationsLog)[o.DKGIdentifier] == loc(operationsLog)
 //@   ensures $logged <= old($logged) + 1
 
 //@ func (*Machine).GetOperationResult
